@@ -273,7 +273,7 @@ def observe_templates(dom, scratch):
 
 def guard_loop_shape():
     """For each of the four templates: is there exactly one `for key, value in options.items()` loop that prints
-    `… | to_static_assertion_value`, without a loop filter, without continue/break, the printing statement
+    `… | to_static_assertion_value`, without a loop filter (other than `not nunavut.support.omit`), without continue/break, the printing statement
     directly in the loop body (not under an `if`)?"""
     _ensure_path()
     from nunavut.jinja.environment import CodeGenEnvironmentBuilder
@@ -295,7 +295,12 @@ def guard_loop_shape():
             direct = any(isinstance(b, nodes.Output) and any(x.name.endswith("to_static_assertion_value") for x in b.find_all(nodes.Filter))
                          for b in f.body)
             jumps = list(f.find_all((nodes.Continue, nodes.Break)))
-            plain = plain and over_items and f.test is None and not f.recursive and direct and not jumps and not f.else_
+            # the only admissible loop filter is the omit test `not nunavut.support.omit` (C, since 22e33a6)
+            t = f.test
+            omit_test = isinstance(t, nodes.Not) and isinstance(t.node, nodes.Getattr) and t.node.attr == "omit" \
+                and isinstance(t.node.node, nodes.Getattr) and t.node.node.attr == "support" \
+                and isinstance(t.node.node.node, nodes.Name) and t.node.node.node.name == "nunavut"
+            plain = plain and over_items and (t is None or omit_test) and not f.recursive and direct and not jumps and not f.else_
         out[rel] = plain
     return out
 
